@@ -1795,7 +1795,10 @@ func runC07(c *Ctx) {
 		// eval of an incomplete text (repaired by 9466c2d); a macro body calling eval (seeded regression 6-1)
 		`eval("()=> /* abc")`, `defun("df", [], ["()=> /* abc"])`, `m = macro(a){ eval("abs(-1)"); quote(unquote(a)) }; m(3)`,
 		// open-ended range outside an index expression with a register on the left (seeded regression 7)
-		"func(n){[n:]}(1)", "for i = 2 {[i:]}", "func tf(n){ x = n:; x }; tf(1)"}
+		"func(n){[n:]}(1)", "for i = 2 {[i:]}", "func tf(n){ x = n:; x }; tf(1)",
+		// unquote of a computed array in positions whose child token is inspected (seeded regression 8-1)
+		"m=macro(){l=[1,2,3]; quote(for x = unquote(l) {println(x)})}; m()", "l=[1,2,3]; quote(()=>unquote(l))", "l=[1,2,3]; quote(if c {1} else {unquote(l)})",
+		"l=[1,2,3]; m=macro(){quote(unquote(l).k)}; m()"}
 	for _, s := range corpus {
 		check(c, "corpus", s, std)
 		evalOneAgrees(c, s)
@@ -1975,6 +1978,31 @@ func runC07(c *Ctx) {
 	macroBodyCalls(c)
 	// 3l. trees with nil children (open-ended `:`, empty blocks, bare return, no else) x register-held variables
 	nilChildShapes(c)
+	// 3m. unquote of computed values in every inspected position; 3n. save / auto-save under every length limit
+	unquoteComputed(c)
+	saveLimits(c)
+
+	// 3o. the same evaluator at log levels Verbose and Debug, output discarded: the ARGUMENTS of log calls (pretty-printed
+	//     trees, Inspect of values, DebugString of tokens) are evaluated even when nobody reads the line
+	for _, lvl := range []log.Level{log.Verbose, log.Debug} {
+		log.SetLogLevelQuiet(lvl)
+		for _, src := range corpus {
+			check(c, "loglevel:corpus", src, std)
+		}
+		nilChildShapes(c)
+		if lvl == log.Verbose || c.Thorough() { // (formatting every token and value makes each program several times slower)
+			registerPressure(c)
+			commentPrograms(c)
+		}
+		if c.Thorough() {
+			guardsInLoops(c)
+			nestedLoops(c)
+			cacheArgs(c)
+			macroBodyCalls(c)
+			unquoteComputed(c)
+		}
+	}
+	log.SetLogLevelQuiet(log.Critical)
 
 	// 4. builtin / extension sweep
 	sweep(c)
